@@ -408,6 +408,43 @@ func TestVerif_C17_newconn(t *testing.T) {
 			rec.Violation(t, "leak:newconn:file-error", c, "client address appears in the station's output at the default log level: %q", strings.TrimSpace(logs))
 		}
 	}
+	// A live connection from a distinctive client address (127.0.0.2) that was not redirected by DNAT
+	// (so the original-destination lookup fails or yields the listener's own address), then reset by
+	// the client: whatever path the handler takes, the client address must not be logged.
+	for i := 0; i < n; i++ {
+		d := net.Dialer{LocalAddr: &net.TCPAddr{IP: net.IPv4(127, 0, 0, 2)}, Timeout: 5 * time.Second}
+		cli, err := d.Dial("tcp", ln.Addr().String())
+		if err != nil {
+			t.Fatalf("harness problem: %v", err)
+		}
+		srv, err := ln.Accept()
+		if err != nil {
+			t.Fatalf("harness problem: %v", err)
+		}
+		done := make(chan struct{})
+		go func() {
+			defer close(done)
+			e.cm.handleNewConn(e.rm, srv.(*net.TCPConn))
+		}()
+		_, _ = cli.Write([]byte("probe"))
+		time.Sleep(5 * time.Millisecond)
+		_ = cli.(*net.TCPConn).SetLinger(0)
+		cli.Close() // RST
+		select {
+		case <-done:
+		case <-time.After(15 * time.Second):
+			t.Fatalf("harness problem: handleNewConn did not return after the client reset the connection")
+		}
+		logs, drained := h.Collect(fmt.Sprintf("@@verif-c17-newconn-live-%d@@", i))
+		if !drained {
+			t.Fatalf("harness problem: log pipe not drained")
+		}
+		c := map[string]any{"client": "127.0.0.2", "fault": "connection not redirected (original destination unavailable), then reset by the client", "i": i}
+		rec.Case(true, vh.Digest(fmt.Sprintf("live-%d", i)), c, "scenario:newconn-no-original-dst")
+		if strings.Contains(logs, "127.0.0.2") {
+			rec.Violation(t, "leak:newconn:no-original-dst", c, "client address appears in the station's output at the default log level: %q", strings.TrimSpace(logs))
+		}
+	}
 }
 
 // Random pairs of faults (two call sites in one connection).
